@@ -365,12 +365,24 @@ class Sim:
             setattr(st, k.name, m)
         prices = self.actuator.token_prices
         first = True
+        # "direct_reuse_row": the caller keeps ONE row object per market and overwrites its cells for every new bar
+        # (demeter's own aave tests hand the same Series to consecutive statuses)
+        reuse_row = self.scenario.get("opts", {}).get("drive") == "direct_reuse_row"
+        rows = {}
         for row_id, ts in enumerate(self.index):
             self.actuator._currents.timestamp = ts.to_pydatetime()
             self.actuator._currents.actions = []
             price_row = prices.loc[ts]
-            for m in self.markets.values():
-                m.set_market_status(MarketStatus(ts.to_pydatetime(), m.data.loc[ts]), price_row)
+            for name, m in self.markets.items():
+                fresh = m.data.loc[ts]
+                if reuse_row and isinstance(fresh, pd.Series):
+                    if name not in rows:
+                        rows[name] = fresh.copy()
+                    else:
+                        for key, val in fresh.items():
+                            rows[name][key] = val
+                    fresh = rows[name]
+                m.set_market_status(MarketStatus(ts.to_pydatetime(), fresh), price_row)
             if first:
                 st.initialize()
                 first = False
@@ -390,7 +402,7 @@ class Sim:
                 self.bar = -2
                 self.run_ops(-2, "pre_run")
                 self.bar = -1
-            if self.scenario.get("opts", {}).get("drive") == "direct":
+            if self.scenario.get("opts", {}).get("drive") in ("direct", "direct_reuse_row"):
                 self._drive_directly()
             else:
                 self.actuator.run(print_result=False)
